@@ -85,27 +85,65 @@ class OpaqueEngine(TasksEngine):
             return FreshConst(BoolS, "truth")
         return super().truth_hook(v, cx)
 
+    # contract.extra['stable_reads']: within the verified block no collaborator is mutated, so attribute reads, subscripts, len,
+    # stores into locals and pure calls are FUNCTIONS of their operands (uninterpreted): the block can be compared with a
+    # specification TERM.  Without it every such read is an arbitrary fresh value.
+    def stable(self):
+        return bool(self.c.extra.get("stable_reads"))
+
     def getattr(self, obj, attr, cx, node=None):
         if isinstance(obj, PyRec) and attr not in obj.fields:
             return PyObj(FreshConst(V, "field_" + attr))
         if isinstance(obj, PyObj):
+            if self.stable():
+                return PyObj(z3.Function("py_attr_" + attr, V, V)(obj.t))
             return PyObj(FreshConst(V, "attr_" + attr))
         return super().getattr(obj, attr, cx, node)
 
+    def eval_Slice(self, e, cx):
+        if e.lower is None and e.upper is None and e.step is None:
+            return PyObj(z3.Const("py_slice_all", V))
+        parts = [self.as_v(self.eval(p, cx)) if p is not None else none_term() for p in (e.lower, e.upper, e.step)]
+        return PyObj(z3.Function("py_slice", V, V, V, V)(*parts))
+
+    def eval_index(self, sl, cx):
+        if isinstance(sl, ast.Slice):
+            return self.eval_Slice(sl, cx)
+        if isinstance(sl, ast.Tuple):
+            items = [self.eval_index(x, cx) for x in sl.elts]
+            if len(items) == 2:
+                return PyObj(z3.Function("py_index_pair", V, V, V)(self.as_v(items[0]), self.as_v(items[1])))
+            raise Unsupported("index tuple of length %d" % len(items))
+        return super().eval_index(sl, cx)
+
     def getitem_hook(self, obj, idx, cx, node):
+        if self.stable() and isinstance(obj, PyObj):
+            return PyObj(z3.Function("py_getitem", V, V, V)(obj.t, self.as_v(idx)))
         return PyObj(FreshConst(V, "item"))
 
     def setitem_hook(self, obj, idx, v, cx, node):
-        # x[i] = v : x is a local (or a field) holding an opaque array -- it becomes an arbitrary new value
+        # x[i] = v : x is a local holding an opaque array
         tgt = node.value
         if isinstance(tgt, ast.Name):
-            cx.st.env[tgt.id] = PyObj(FreshConst(V, tgt.id))
+            if self.stable() and isinstance(obj, PyObj):
+                cx.st.env[tgt.id] = PyObj(z3.Function("py_setitem", V, V, V, V)(obj.t, self.as_v(idx), self.as_v(v)))
+            else:
+                cx.st.env[tgt.id] = PyObj(FreshConst(V, tgt.id))      # an arbitrary new value (its content is outside the claim)
             return
+        if self.stable() and isinstance(tgt, ast.Attribute) and isinstance(tgt.value, ast.Name) and tgt.value.id == "self":
+            me = cx.st.env["self"]
+            cur = me.fields.get(tgt.attr)
+            if isinstance(cur, PyObj):
+                cx.st.env["self"] = me.with_field(tgt.attr, PyObj(z3.Function("py_setitem", V, V, V, V)(cur.t, self.as_v(idx), self.as_v(v))))
+                return
         raise Unsupported("item store through " + type(tgt).__name__)
 
     def builtin_len(self, e, cx):
-        self.eval(e.args[0], cx)
-        n = FreshConst(IntS, "len")
+        v = self.eval(e.args[0], cx)
+        if self.stable() and isinstance(v, PyObj):
+            n = z3.Function("py_len", V, IntS)(v.t)
+        else:
+            n = FreshConst(IntS, "len")
         cx.assume(n >= 0)
         return PyInt(n)
 
@@ -123,23 +161,39 @@ class OpaqueEngine(TasksEngine):
 
     def call_method(self, recv, name, e, cx, recv_node):
         if isinstance(recv_node, ast.Name) and recv_node.id == "np" and "np" not in cx.st.env:
-            for a in e.args:
-                self.eval(a, cx)
-            for kw in e.keywords:
-                self.eval(kw.value, cx)
+            args = [self.as_v(self.eval(a, cx)) for a in e.args]
+            kws = sorted((kw.arg, self.as_v(self.eval(kw.value, cx))) for kw in e.keywords)
+            if self.stable():
+                return PyObj(self.pure_term("np_" + name, args, kws))
             return PyObj(FreshConst(V, "np_" + name))
         return super().call_method(recv, name, e, cx, recv_node)
 
+    def pure_term(self, fname, args, kws):
+        """uninterpreted application  fname[k1,k2,...](args..., kwvalues...)  (keyword NAMES are part of the symbol)"""
+        sym = fname + "".join("," + k for k, _ in kws)
+        vals = list(args) + [v for _, v in kws]
+        return z3.Function(f"{sym}/{len(vals)}", *([V] * len(vals) + [V]))(*vals) if vals else z3.Const(sym + "/0", V)
+
     def method_hook(self, recv, name, e, cx, recv_node):
         if isinstance(recv, PyObj) and name in self.c.extra.get("pure_methods", ()):
-            # a method of an opaque collaborator declared pure for this contract (listed as assumption): arbitrary result, may raise
-            for a in e.args:
-                self.eval(a, cx)
+            # a method of an opaque collaborator declared pure for this contract (listed as assumption): may raise; its result is
+            # arbitrary, or -- with stable reads -- a function of the receiver and the arguments
+            args = [self.as_v(self.eval(a, cx)) for a in e.args]
+            kws = sorted((kw.arg, self.as_v(self.eval(kw.value, cx))) for kw in e.keywords)
             cx.raise_if(FreshConst(BoolS, name + "_raises"), "UserError")
+            if self.stable():
+                if name == "copy" and not args and not kws:
+                    return recv                     # a copy has the same VALUE
+                return PyObj(self.pure_term("meth_" + name, [recv.t] + args, kws))
             return PyObj(FreshConst(V, name))
         return super().method_hook(recv, name, e, cx, recv_node)
 
     def call_hook(self, e, cx):
+        if self.stable() and isinstance(e.func, ast.Name) and e.func.id in self.c.extra.get("pure_functions", ()):
+            args = [self.as_v(self.eval(a, cx)) for a in e.args]
+            kws = sorted((kw.arg, self.as_v(self.eval(kw.value, cx))) for kw in e.keywords)
+            cx.raise_if(FreshConst(BoolS, e.func.id + "_raises"), "UserError")
+            return PyObj(self.pure_term("call_" + e.func.id, args, kws))
         if isinstance(e.func, ast.Name) and e.func.id in ("_print", "print"):
             for a in e.args:
                 self.eval(a, cx)
